@@ -16,7 +16,9 @@ RULE = ("Hypothesis draws a core-grammar program in which ~30% of statements are
         "index, key, non-callable, undefined property), a raise inside a native callback (each / map..list / "
         "filter..list), or break/continue/return, or nothing); 1-3 catch clauses with matching, ancestor, unrelated or "
         "no class filter, sometimes raising while handling; after every try all scalars in scope are printed and two "
-        "new variables are declared and used. Compared with the reference evaluator on debug and release workers. "
+        "new variables are declared and used. One program in four also launches, at module level, a worker fiber that "
+        "catches an error of its own (before or after reporting through a channel, or both) and ends while main, which "
+        "may just have caught an error itself, waits for the report. Compared with the reference evaluator on debug and release workers. "
         "Non-trivial: an error crossed >= 1 call frame to its handler, or a try was left by break/continue/return and "
         "an error was raised afterwards (model trace); distinct by program text.")
 ASSUMPTIONS = ["reference evaluator's exception semantics (nearest dynamically enclosing matching handler, catch "
@@ -35,13 +37,13 @@ def cases(tier):
 
 
 def strategy(hazards):
-    return gen.exc_program(gen.Cfg(max_depth=3, p_confuse=0, exceptions=True, hazards=hazards))
+    return gen.exc_program(gen.Cfg(max_depth=3, p_confuse=0, exceptions=True, exc_fibers=True, hazards=hazards))
 
 
 def run_case(case, ctx):
     prog = case
     src, lines = printer.to_source(prog)
-    res, why = run_model(prog, lines)
+    res, why = run_model(prog, lines, fibers=True)
     if res is None:
         return Outcome(discarded=why)
     labels = sorted(l for l in res.labels if not l.startswith("cap:")) + ["outcome:" + res.outcome]
@@ -50,6 +52,8 @@ def run_case(case, ctx):
         labels.append("nontrivial")
     if res.counts.get("caught"):
         labels.append("caught")
+    if "launch " in src:
+        labels.append("fiber-catches")
     runs = 0
     fail = None
     for variant in ("dbg", "rel"):
